@@ -21,6 +21,7 @@ The template is called as a sub-template on a pre-populated TemplateDict
 """
 
 import itertools
+import json
 
 from .. import ast
 from ..ast import E
@@ -40,10 +41,13 @@ MANIFEST = {
                  'pairs; stack/level invariants checked at every probe and '
                  'after the call',
     'text': 'All ordered forests of <= 3 (quick) / <= 4 (thorough) block '
-            'nodes over 26 block kinds (in, batched in, in mapping, in over mixed pushed / unpushed items, in / batched in over an empty sequence with the blocks in the else branch, if with three named conditions, with, with only, '
+            'nodes over 28 block kinds (in, batched in, in mapping, in over mixed pushed / unpushed items, in / batched in over an empty sequence with the blocks in the else branch, if with three named conditions, with, with only, '
             'let, if, try body, try handler, try/finally body, finally, '
-            'raise, sub-template, tree, tree with expand_all + '
-            'branches_expr) are run on the real code as a sub-template call '
+            'raise, sub-template by name / from an expression with a client '
+            'tuple / with one client and keywords, tree, tree with '
+            'expand_all + branches_expr, tree with leaves / header / footer '
+            'documents on a fully expanded stored state, tree with an '
+            'expand document, tree naming missing documents) are run on the real code as a sub-template call '
             'on a pre-populated TemplateDict, fault-free and with a fault '
             '{HB exception, DTReturn} at every invocation ordinal, and with '
             'a second fault at every later ordinal of that trace (<= 2 '
@@ -57,7 +61,7 @@ MANIFEST = {
             'states.',
 }
 DYNAMIC = True        # few heavy cases: dynamic load balancing
-RULE = ('programs: forests of <= 3 / <= 4 block nodes over 26 kinds; faults: '
+RULE = ('programs: forests of <= 3 / <= 4 block nodes over 28 kinds; faults: '
         'none, one (each ordinal x {raise HB, return}), two (second at every '
         'later ordinal; quick: for programs of <= 2 blocks).  A run is '
         'non-trivial when a fault fired (control flow was changed).')
@@ -68,8 +72,9 @@ CASE_CPU_SECONDS_QUICK = 120.0
 
 KINDS = ('in', 'inb', 'inmap', 'inbmap', 'inmix', 'inbmix', 'insortx',
          'inbvars', 'inempty', 'inbempty', 'if2', 'with', 'withonly', 'let', 'if', 'try', 'tryh',
-         'tryf', 'fin', 'raise', 'sub', 'subtuple', 'tree', 'treex', 'treedm', 'treedp')
-LEAF_ONLY = ('withonly', 'tree', 'treex', 'treedm', 'treedp')     # no nested blocks inside
+         'tryf', 'fin', 'raise', 'sub', 'subtuple', 'subclient', 'tree', 'treex', 'treedm', 'treedp',
+         'treeed')
+LEAF_ONLY = ('withonly', 'tree', 'treex', 'treedm', 'treedp', 'treeed')     # no nested blocks inside
 SYNTAXES = ('dtml', 'ssi', 'epfs')
 
 
@@ -230,6 +235,11 @@ class Builder:
             ns['ca%d' % k] = ['obj', {'ca': ['lit', 1]}]
             ns['cb%d' % k] = ['obj', {'cb': ['lit', 2]}]
             n = ['var', E('sub%d((ca%d, cb%d), _)' % (k, k, k)), []]
+        elif kind == 'subclient':
+            # ... with a single client object and a keyword argument
+            ns['sub%d' % k] = ['tmpl', inner, {'sd%d' % k: ['lit', 1]}]
+            ns['ca%d' % k] = ['obj', {'ca': ['lit', 1]}]
+            n = ['var', E('sub%d(ca%d, _, kw%d=1)' % (k, k, k)), []]
         elif kind == 'treedm':
             # leaves / expand / header / footer name documents that do not
             # exist
@@ -237,15 +247,27 @@ class Builder:
                  [['leaves', 'nold%d' % k], ['expand', 'noed%d' % k],
                   ['header', 'nohd%d' % k], ['footer', 'noft%d' % k]]]
         elif kind == 'treedp':
-            # ... that exist (and may raise), are None, or are missing
+            # ... that exist and may raise: the leaves document is rendered
+            # for every expanded childless node, header / footer around the
+            # children of every expanded node
             ns['ld%d' % k] = ['tmpl', [T('L'), self.probe('leafdoc%d' % k)],
                               {}]
             ns['hd%d' % k] = ['tmpl', [T('H'), self.probe('headdoc%d' % k)],
                               {}]
-            ns['ed%d' % k] = ['lit', None]
+            ns['fd%d' % k] = ['tmpl', [T('F'), self.probe('footdoc%d' % k)],
+                              {}]
             n = ['tree', N('root'), [T('r'), self.probe('row%d' % k)],
-                 [['leaves', 'ld%d' % k], ['expand', 'ed%d' % k],
-                  ['header', 'hd%d' % k], ['footer', 'noft%d' % k]]]
+                 [['leaves', 'ld%d' % k], ['header', 'hd%d' % k],
+                  ['footer', 'fd%d' % k]]]
+        elif kind == 'treeed':
+            # the expand document stands for the children of an expanded
+            # node; the other documents are None or missing
+            ns['ed%d' % k] = ['tmpl', [T('X'), self.probe('expdoc%d' % k)],
+                              {}]
+            ns['hd%d' % k] = ['lit', None]
+            n = ['tree', N('root'), [T('r'), self.probe('row%d' % k)],
+                 [['expand', 'ed%d' % k], ['header', 'hd%d' % k],
+                  ['leaves', 'nold%d' % k], ['footer', 'noft%d' % k]]]
         elif kind == 'tree':
             n = ['tree', N('root'), [T('r'), self.probe('row%d' % k)], []]
         elif kind == 'treex':
@@ -363,6 +385,13 @@ def execute(nodes, ns, syntax, faults, cache=None, level0=3):
     f1.update({'s1': sent[0], 'URL': 'http://h/u', 'RESPONSE': Response(),
                'expand_all': 1,
                'root': TNode('r', [TNode('a', [TNode('a1')]), TNode('b')])})
+    if '"leaves", "ld' in json.dumps(nodes):
+        # a leaves document is rendered for expanded childless nodes only,
+        # and expand_all expands just the nodes that have children: hand in
+        # a stored state with every node expanded instead
+        from TreeDisplay.TreeTag import encode_seq
+        del f1['expand_all']
+        f1['tree-s'] = encode_seq((['r', [['a', [['a1', []]]], ['b', []]]],))
     f2 = {'s2': sent[1]}
     f3 = {'s3': sent[2]}
     md = TemplateDict()
